@@ -54,6 +54,12 @@ pub struct Case {
     /// the incoming stream ends (listener closed / producer gone) right after the signal, while calls drain
     #[serde(default)]
     pub close_listener: bool,
+    /// the listener reports an accept error while calls are in flight (before the signal)
+    #[serde(default)]
+    pub accept_error: bool,
+    /// one streaming call keeps sending for a long (virtual) time after the signal: two more messages, 25 s apart
+    #[serde(default)]
+    pub long_tail: bool,
 }
 
 fn call_spec() -> BoxedStrategy<CallSpec> {
@@ -92,10 +98,18 @@ pub fn strategy() -> BoxedStrategy<Case> {
         3 => (any::<u16>(), 0u8..4).prop_map(|(s, j)| Signal::OnSent(s, j)),
         2 => any::<u16>().prop_map(Signal::OnCompleted),
     ];
-    (proptest::collection::vec(conn, 1..=3), signal, any::<bool>(), any::<bool>(), any::<u64>(), prop_oneof![4 => Just(0u8), 1 => Just(30u8)], proptest::bool::weighted(0.3))
-        .prop_map(|(conns, signal, post_conn, post_call, rt_seed, backlog, close_listener)| {
+    (proptest::collection::vec(conn, 1..=3), signal, any::<bool>(), any::<bool>(), any::<u64>(), prop_oneof![4 => Just(0u8), 1 => Just(30u8)], proptest::bool::weighted(0.3), proptest::bool::weighted(0.2), proptest::bool::weighted(0.2))
+        .prop_map(|(mut conns, signal, post_conn, post_call, rt_seed, backlog, close_listener, accept_error, long_tail)| {
             let backlog = if matches!(signal, Signal::AtMs(_)) { backlog } else { 0 };
-            Case { conns, signal, post_conn: post_conn && !close_listener, post_call, rt_seed, backlog, close_listener }
+            if long_tail {
+                // the first streaming call (if any) gets a long tail
+                if let Some(call) = conns.iter_mut().flat_map(|c| c.calls.iter_mut()).find(|c| c.shape != Shape::Unary) {
+                    for _ in 0..2 {
+                        call.script.msgs.push(RespMsg { data: crate::infra::blob::Blob::of(b"tail"), pend: 0, delay_ms: 25_000 });
+                    }
+                }
+            }
+            Case { conns, signal, post_conn: post_conn && !close_listener, post_call, rt_seed, backlog, close_listener, accept_error, long_tail }
         })
         .boxed()
 }
@@ -217,6 +231,14 @@ pub fn run(c: &Case, o: &mut Outcome) -> Result<(), Failure> {
         }
         rt::quiesce().await;
         scen.lock().unwrap().accepted_conns = n_conns;
+        if case.accept_error {
+            // e.g. EMFILE from accept(2): the server must carry on (and later shut down gracefully)
+            let net = net.clone();
+            tokio::spawn(async move {
+                tokio::time::sleep(Duration::from_millis(1)).await;
+                net.inject_accept_error(std::io::ErrorKind::Other);
+            });
+        }
         // ---- a backlog of connections offered in the same instant in which the signal fires
         let backlog_task = match (&case.signal, case.backlog) {
             (Signal::AtMs(t), b) if b > 0 => {
@@ -336,6 +358,8 @@ pub fn run(c: &Case, o: &mut Outcome) -> Result<(), Failure> {
     o.label_if(c.post_conn, "post_signal_connection");
     o.label_if(c.post_call, "post_signal_call_on_old_connection");
     o.label_if(c.close_listener, "incoming_ends_during_drain");
+    o.label_if(c.accept_error, "accept_error_injected");
+    o.label_if(c.long_tail && c.conns.iter().flat_map(|k| k.calls.iter()).any(|k| k.script.msgs.iter().any(|m| m.delay_ms >= 25_000)), "stream_outlasts_signal_by_50s");
     o.label_if(matches!(c.signal, Signal::AtMs(_)), "signal_by_time");
     o.label_if(!matches!(c.signal, Signal::AtMs(_)), "signal_by_handler_event");
 
@@ -400,7 +424,7 @@ impl Prop for C13 {
         run(c, o)
     }
     fn rule() -> &'static str {
-        "proptest over shutdown histories in virtual time: Server::serve_with_incoming_shutdown over an mpsc-fed stream of in-memory pipes; 1-3 connections x 1-4 calls (unary with latency; server-streaming / bidi with 0-4 messages and inter-message delays; OK or error outcomes), start times 0-120 ms; the signal fires at a virtual time 1-300 ms or is triggered by a handler event (handler i entered / handler i sent message j / handler i completed); pipe fragmentation per connection; scheduler seed; optionally one more connection offered and one more call on an old connection after the signal. Oracle (history invariants): every call whose handler was entered is never cancelled (drop guard), completes, and its client outcome equals the script; calls that never reached a handler may fail but never report success; no handler runs for a connection offered after the signal; the serve future resolves (virtual-time watchdog, client channels still alive), not before the signal, not before the server half of every accepted connection closed, not before every handler finished. Non-trivial: the signal lands while >=1 handler is entered and unfinished."
+        "proptest over shutdown histories in virtual time: Server::serve_with_incoming_shutdown over an mpsc-fed stream of in-memory pipes; 1-3 connections x 1-4 calls (unary with latency; server-streaming / bidi with 0-4 messages and inter-message delays; OK or error outcomes), start times 0-120 ms; the signal fires at a virtual time 1-300 ms or is triggered by a handler event (handler i entered / handler i sent message j / handler i completed); pipe fragmentation per connection; scheduler seed; optionally one more connection offered and one more call on an old connection after the signal. Oracle (history invariants): every call whose handler was entered is never cancelled (drop guard), completes, and its client outcome equals the script; calls that never reached a handler may fail but never report success; no handler runs for a connection offered after the signal; the serve future resolves (virtual-time watchdog, client channels still alive), not before the signal, not before the server half of every accepted connection closed, not before every handler finished. Non-trivial: the signal lands while >=1 handler is entered and unfinished. Also: a non-transient error item injected into the incoming stream before the signal (the server keeps serving and still drains), and streams that go on for 25 s after the signal (longer than the HTTP/2 keep-alive timeout)."
     }
     fn assumptions() -> Vec<String> {
         vec![
@@ -410,7 +434,7 @@ impl Prop for C13 {
     }
     fn cases(t: Tier) -> u64 {
         match t {
-            Tier::Quick => 3_000,
+            Tier::Quick => 12_000,
             Tier::Thorough => 150_000,
         }
     }
